@@ -10,6 +10,10 @@ time and runs its stages in order; no message is handled after passing a gate of
 was down at that instant; nothing of a module runs after a panic of one of its callbacks; the
 error list of `run()` is exactly the multiset of uncaught callback panics and joined task panics;
 the module context is free after the run.
+
+Cases on which model and implementation agree completely are finally judged against C13 AS
+STATED; the two recorded deviations of the code are reported as tagged rejects (`tag=F-C13b`,
+`tag=F-C13c`, see `knownDeviation`), which bin/check turns into KNOWN-FINDING lines.
 -/
 import Desverif.Model.Net
 import Driver.Common
@@ -49,6 +53,7 @@ def parseAction (sc : Script) : List String → Option Action
   | ["restart_in", d] => d.toNat?.map .restartIn
   | ["restart_at", t] => t.toNat?.map .restartAt
   | ["panic"] => some .panic
+  | ["rpanic"] => some .rpanic
   | ["log", n] => n.toNat?.map .log
   | _ => none
 
@@ -312,6 +317,40 @@ def expectedErrors (sc : Script) (impl : List Obs) : List String := Id.run do
     if !endPanic then out := out ++ List.replicate joined s!"join:{name}"
   return sortStrings out
 
+/-- C13 as stated, where the code (and hence the faithful model) is known to deviate; judged on
+    the implementation trace only.  Returns (position, clause, tag).
+    * F-C13b `task-panic-not-deactivated`: after a panic inside a `try_join`'ed task the module still
+      handled a message or resumed a task during the event loop (the panic did not deactivate it);
+    * F-C13c `ran-at-sim-end-after-panic`: a task of a module one of whose callbacks had panicked
+      (and which was not reset / restarted since) was woken at simulation end.  (`at_sim_end` itself
+      is called for such a module too; the property speaks of messages and wake-ups, so only the
+      wake-up is judged);
+    * F-C13b `task-panic-ignores-catch`: `run()` reports a `JoinError` for a module whose stereotype
+      declares panics as caught. -/
+def knownDeviation (sc : Script) (impl : List Obs) (res : List String) : Option (Nat × String × String) := Id.run do
+  let mut jp : Array Bool := (sc.mods.map fun _ => false).toArray      -- a joined task panicked
+  let mut dead : Array Bool := (sc.mods.map fun _ => false).toArray    -- a callback panicked
+  let mut ended := false
+  let mut i := 0
+  for o in impl do
+    if o.kind == .end_ then ended := true
+    if !ended then
+      if (o.kind == .msg || o.kind == .task) && jp[o.mod]?.getD false then
+        return some (i, "task-panic-not-deactivated", "F-C13b")
+      if o.kind == .pan && o.a == some 1 && o.b == some 1 then jp := jp.set! o.mod true
+      if o.kind == .pan && o.a == some 0 then dead := dead.set! o.mod true
+      if o.kind == .reset then
+        jp := jp.set! o.mod false
+        dead := dead.set! o.mod false
+    else
+      if o.kind == .task && dead[o.mod]?.getD false then
+        return some (i, "ran-at-sim-end-after-panic", "F-C13c")
+    i := i + 1
+  for m in sc.mods do
+    if m.2.2 && res.contains s!"join:{m.1}" then
+      return some (impl.length, "task-panic-ignores-catch", "F-C13b")
+  return none
+
 def fuel : Nat := 30000
 
 def runCase (twice : Bool) (c : Case) : String := Id.run do
@@ -319,7 +358,7 @@ def runCase (twice : Bool) (c : Case) : String := Id.run do
   let isOut (l : String) : Bool := l.startsWith "obs" || l.startsWith "res" || l.startsWith "glob" || l.startsWith "end"
   let body := c.body.filter fun l => !isOut l
   let sc := parseScript body
-  let hasPanic := sc.acts.any fun a => a.2.2.2 == .panic
+  let hasPanic := sc.acts.any fun a => a.2.2.2 == .panic || a.2.2.2 == .rpanic
   let mut impl : List Obs := []
   let mut impl2 : List Obs := []
   let mut res : List String := []
@@ -394,6 +433,11 @@ def runCase (twice : Bool) (c : Case) : String := Id.run do
     | none => pure ()
     if resOf sc s.errors != res2 then
       return s!"fail {id} op={impl.length} kind=diverge run=2 what=errors model=[{" ".intercalate (resOf sc s.errors)}] impl=[{" ".intercalate res2}]"
+  -- C13 as stated: the recorded deviations (only now that model = implementation on everything)
+  match knownDeviation sc impl res with
+  | some (k, clause, tag) =>
+    return s!"fail {id} op={k} kind=reject clause={clause} tag={tag} at=[{showObs sc impl[k]?}] res=[{" ".intercalate res}]"
+  | none => pure ()
   -- evidence
   let mainLoop := impl.takeWhile (·.kind != .end_)
   let count (k : OKind) : Nat := (mainLoop.filter (·.kind == k)).length
